@@ -93,6 +93,7 @@ ALGOS = [
     "bip143_wscript_direct", "bip341_key_direct", "bip341_script_direct",
     "disp_p2pkh", "disp_p2sh", "disp_p2wpkh", "disp_p2sh_p2wpkh", "disp_p2wsh", "disp_p2sh_p2wsh",
     "disp_p2tr_key", "disp_p2tr_key_annex", "disp_p2tr_script", "disp_p2tr_script_annex",
+    "disp_p2tr_script_no_args",
 ]
 
 
@@ -208,6 +209,13 @@ def check_diff(case, ctx):
             annex = b"\x50\x00"
         cb = bytes([case["leaf_version"] | case["cb_parity"]]) + case["ikey"] + b"".join(case["path"])
         wit = [case["sig"], code_b, cb] + ([annex] if annex is not None else [])
+        want = ("bip341", sighash.tapleaf_hash(code_b, case["leaf_version"]))
+    elif algo == "disp_p2tr_script_no_args":
+        # two witness items (plus, possibly, the annex) are already a script path spend: the state in which
+        # a signer asks for the digest BEFORE the first signature is put on the stack
+        spent[idx]["spk"] = [0x51, case["ikey"]]
+        cb = bytes([case["leaf_version"] | case["cb_parity"]]) + case["ikey"] + b"".join(case["path"])
+        wit = [code_b, cb] + ([annex] if annex is not None else [])
         want = ("bip341", sighash.tapleaf_hash(code_b, case["leaf_version"]))
     else:
         raise AssertionError(algo)
